@@ -21,7 +21,11 @@ RULE = ('batches of int64 values / integer texts / integer lists / float texts /
         'array object (for canonical integer texts the output object of ints_to_strings): it is parsed whole more than once, '
         'sub-batches/permutations are taken from it, and its text is read back after all runs (inputs unchanged); batches '
         'mixing valid texts with malformed ones (no digits, sign only, two points, exponent without digits, letters): must '
-        'raise the parse error at the first malformed row, sub-batches without one convert as usual. non-trivial = a row of width >= 2, a signed row, a batch '
+        'raise the parse error at the first malformed row, sub-batches without one convert as usual; every memory layout '
+        '(contiguous, strided, negative stride, matrix column / row, C and Fortran order, transposed and stacked-transposed '
+        'views) x dtype (int8..int64, uint8..uint64, float32/64) into ints_to_strings, float_to_strings, '
+        'int_lists_to_strings, written file columns and matrix_to_csv (field (i,j) = element (i,j), read back by '
+        'parse_matrix); the text of a row must not depend on the layout. non-trivial = a row of width >= 2, a signed row, a batch '
         'with rows of different width, or a float text with a fraction or an exponent')
 EXHAUSTIVE = {'quick': False, 'thorough': False}
 TIE = ('translator+correspondence: translate/gen_c18.py regenerates 22 arithmetic kernels of strops.py / file_buffers.py into Gen/C18.v, '
@@ -170,7 +174,9 @@ def _layout_cases(rng, quick):
                 xs = [rng.choice([0.5, -1.25, 3.0, 1e10, -0.0, 0.0, 1024.0, 2.0 ** -10, 7.75, -65536.0, 1e-3 * 0 + 0.375]) for _ in range(n)]
             bits = [d2b(x) for x in xs]
             runs = [[100 + 10 * lay + di, list(range(n))] for lay in range(N_LAY1)]
-            runs += [[0, list(range(n))], [100 + 10 * rng.randrange(N_LAY1) + di, rng.sample(range(n), rng.randint(1, n))]]
+            runs += [[100 + 10 * rng.randrange(N_LAY1) + di, rng.sample(range(n), rng.randint(1, n))]]
+            if dt == 'float64':     # (the shortest text of a float32 may differ from the float64's: 1e+10 / 10000000000.0)
+                runs.append([0, list(range(n))])
             cases.append(_mk(FMT_FLOAT, bits, runs))
     # float texts through parse_matrix
     texts = ['1.5', '-2.25', '1e5', '.5', '12', '2.5e-3', '7.', '-0.0']
